@@ -13,6 +13,7 @@
 (*          object member value, key of a primitive / object / array        *)
 (*          member, tabular cell (first / last column), tabular header key, *)
 (*          list item, value / key of an object that is a list item.        *)
+(*  (rows)  arrays of objects around the tabular form (see Rows below).      *)
 EXTENDS Csv, Json, TLC
 CONSTANTS Indents, ToonDelims, Markers, Deep
 VARIABLES opt, v
@@ -76,7 +77,20 @@ PrimCases(p) ==
     Arr2(O1(KK, p), One) }                                         \* member of a list-item object
 Prim(dummy) == UNION { PrimCases(p) : p \in PrimSet }
 
-Universe == Tree(0) \cup Text(0) \cup Prim(0)
+\* ---- (rows) arrays of objects around the tabular form: rows over the same keys whose cells are primitives or nested values in any
+\* row and column (a nested value in a LATER row must still prevent the tabular form), rows whose key sets differ, three rows, and the
+\* same arrays as a member value and as a list item
+Cells == { One, S(Z), JNull, EmptyArr, Arr1(One), EmptyObj, O1(A, One) }
+PrimCells == { One, S(Z), JNull }
+RowsAB == { O2(A, x, B, y) : x, y \in Cells }
+PrimRowsAB == { O2(A, x, B, y) : x, y \in PrimCells }
+RowArrays == { Arr2(r1, r2) : r1, r2 \in RowsAB }
+             \cup { JArr(<<r1, r2, r3>>) : r1 \in {O2(A, One, B, One)}, r2 \in PrimRowsAB, r3 \in RowsAB }
+             \cup { Arr2(O2(A, One, B, One), O1(A, One)), Arr2(O1(A, One), O2(A, One, B, One)), Arr2(O2(A, One, B, One), O2(A, One, M, One)),
+                    Arr2(O2(A, One, B, One), EmptyObj), Arr2(O2(A, One, B, One), One), JArr(<<O2(A, One, B, One), O2(A, One, B, One), O1(A, One)>>) }
+Rows(dummy) == RowArrays \cup { O1(KK, a) : a \in RowArrays } \cup { Arr2(One, a) : a \in { Arr2(r1, r2) : r1 \in PrimRowsAB, r2 \in RowsAB } }
+
+Universe == Tree(0) \cup Text(0) \cup Prim(0) \cup Rows(0)
 None == <<"none">>
 Init == opt \in [indent : Indents, delimiter : ToonDelims, lm : Markers] /\ v = None
 Next == v = None /\ v' \in Universe /\ opt' = opt
